@@ -260,7 +260,85 @@ func handleProbe() ProbeReport {
 			rep.Bad = append(rep.Bad, fmt.Sprintf("%s: two resolution sites of a transient controller in one request: the constructor ran %d times (same instance: %v)", names[integ], runs, seen[0] == seen[1]))
 		}
 	}
+	for _, how := range []string{"unrelated-context", "nested-scope-context"} {
+		rep.Rounds++
+		if msg := fiberLocalsRound(how); msg != "" {
+			rep.Bad = append(rep.Bad, "fiber/"+how+": "+msg)
+		}
+	}
 	return rep
+}
+
+type wUser struct{ name string }
+type wUserCtl struct{ user *wUser }
+
+// fiberLocalsRound: fiber keeps the request's scope with the request (c.Locals) as well as in the user context, and a
+// handler between the scope middleware and Handle may replace the user context (fiber's SetUserContext is how values are
+// passed on): the request still has its scope, and "Handle calls the controller method only after resolving the
+// controller from the request's scope" - the scope godifiber.FromContext(c) returns, whose instances the configured
+// middleware prepared - not from whatever the user context now points at, and not the scope-error handler.
+func fiberLocalsRound(how string) (msg string) {
+	defer func() {
+		if v := recover(); v != nil {
+			msg = fmt.Sprintf("panic: %v", v)
+		}
+	}()
+	c := godi.NewCollection()
+	c.AddScoped(func() *wUser { return &wUser{} })
+	c.AddScoped(func(u *wUser) *wUserCtl { return &wUserCtl{u} })
+	p, err := c.Build()
+	if err != nil {
+		return err.Error()
+	}
+	defer p.Close()
+	var reqUser, ctlUser *wUser
+	called, scopeErr := false, false
+	app := fiber.New(fiber.Config{DisableStartupMessage: true})
+	app.Use(godifiber.ScopeMiddleware(p, godifiber.WithMiddleware(func(s godi.Scope, c *fiber.Ctx) error {
+		u, err := godi.Resolve[*wUser](s)
+		if err == nil {
+			u.name = "alice"
+		}
+		return err
+	})))
+	app.Use(func(c *fiber.Ctx) error {
+		s := godifiber.FromContext(c)
+		if s == nil {
+			return errors.New("no request scope")
+		}
+		reqUser, _ = godi.Resolve[*wUser](s)
+		if how == "unrelated-context" {
+			c.SetUserContext(context.WithValue(context.Background(), recKey{}, "trace"))
+			return c.Next()
+		}
+		child, err := s.CreateScope(c.UserContext())
+		if err != nil {
+			return err
+		}
+		defer child.Close()
+		c.SetUserContext(child.Context())
+		return c.Next()
+	})
+	app.Get("/", godifiber.Handle(func(ctl *wUserCtl, c *fiber.Ctx) error {
+		called, ctlUser = true, ctl.user
+		return c.SendStatus(200)
+	}, godifiber.WithScopeErrorHandler(func(c *fiber.Ctx, err error) error {
+		scopeErr = true
+		return c.SendStatus(500)
+	})))
+	if resp, err := app.Test(httptest.NewRequest("GET", "/", nil), 5000); err == nil {
+		resp.Body.Close()
+	}
+	_ = app.Shutdown()
+	switch {
+	case scopeErr:
+		return "the scope-error handler ran although the request has its scope (godifiber.FromContext(c) returns it)"
+	case !called:
+		return "the controller method was not called"
+	case reqUser == nil || ctlUser != reqUser || ctlUser.name != "alice":
+		return "the controller was not resolved from the request's scope: its scoped dependency is not the instance the configured middleware prepared"
+	}
+	return ""
 }
 
 // wInHandler, when set, runs inside the request handler of every integration (the request-cancellation probe)
